@@ -88,6 +88,22 @@ def r1_failure_mode_closure(corpus: Corpus, rep: Report, tier: str):
         "Esc(entry) is empty for the nine front-end entries and within the documented class for API functions",
     )
     corpus._cache["c01-analyses"] = analyses
+    # catalogue entry "tuple-unpack of a split-derived sequence": constructs outside the modelled subset are
+    # fail-closed here (the engine records them, other properties ignore them); raising ones get their witness
+    seen_unsupported = set()
+    witnesses: dict[tuple[str, str], str] = {}
+    for ea in analyses.values():
+        for fq_, text, site, why in ea.unsupported:
+            if (fq_, text) not in seen_unsupported:
+                seen_unsupported.add((fq_, text))
+                rep.error("C01.R1", f"{site}: tuple-unpack of `{text}` in {fq_.split(':')[1]}: {why}")
+        witnesses.update(ea.unpack_witness)
+    for it in rep.items:
+        if it.rule == "C01.R1" and it.status == "violation" and "|origin=" in it.key:
+            fq_, _, text = it.key.split("|origin=", 1)[1].partition("|")
+            w = witnesses.get((fq_, text))
+            if w and w not in it.what:
+                it.what += f" [unpacking raises ValueError: {w}]"
     rep.expect_min("C01.R1", 60, "raise sites, asserts and catalogued calls reachable from the entries")
 
 
